@@ -234,10 +234,13 @@ CIF = H("ZZAnnouncerCompleteInFlight", "internal/announcer", "the download compl
 C["C16"]["harnesses"] += [CIF]
 C["C15"]["harnesses"] += [CIF]
 
-WS3 = H("ZZPickerWebseed3", "torrent", "downloading 3-piece torrent with 2 web-seed sources (limit 1..2 concurrent) and one peer with an arbitrary bitfield; every sequence of 3 events - peer unchokes / chokes / completes its piece (hash ok or not) / disconnects, a web seed finishes the piece it is on and its write completes (hash ok or not) or its request fails -: peer-side request clauses, plus web-seed ranges never overlap, range bookkeeping consistent with the picker's per-piece owner, active-download count exact and within the limit, no crash (internal panics)", T(40, 1800, 6, 6, flags=["-nospawn"]), T(40, 1800, 6, 6, flags=["-nospawn"]), replay="model")
-C["C09"]["harnesses"] += [WS3, H("ZZPickerWebseed4", "torrent", "4 events", None, T(40, 7000, 32, 8, flags=["-nospawn"]), replay="model")]
-C["C17"]["harnesses"] += [WS3]
-C["C09"]["assumptions"] = [a for a in C["C09"]["assumptions"] if "web-seed ranges are not exercised" not in a] + ["web-seed download goroutine not run: its results (piece finished / request failed) are events, produced exactly as urldownloader.Run's completePiece does"]
+WSD = "downloading 3-piece torrent with 2 web-seed sources (limit 1..2 concurrent, range length cap 1..3, web seeds failed once at start and retried at once or later) and one peer with an arbitrary bitfield; events: peer unchokes / chokes / completes its piece (hash ok or not) / disconnects, a web seed finishes the piece it is on and its write completes (hash ok or not) or its request fails, the retry timer of a failed web seed fires; checked after every event: peer-side request clauses (never a piece we have or are writing, ...), web-seed ranges never overlap, range bookkeeping consistent with the picker's per-piece owner, active-download count exact and within the limit, no crash (internal panics)"
+WS2 = H("ZZPickerWebseed2", "torrent", "every sequence of 2 events: " + WSD, T(40, 1800, 6, 6, flags=["-nospawn"]), T(40, 1800, 6, 6, flags=["-nospawn"]), replay="model")
+WSL = H("ZZPickerWebseedLate", "torrent", "the 3-event script unchoke, web-seed retry, peer completes its piece (a range handed out around a piece a peer is already downloading), all other choices arbitrary: " + WSD, T(40, 900, flags=["-nospawn"]), T(40, 900, flags=["-nospawn"]), replay="model")
+WS3 = H("ZZPickerWebseed3", "torrent", "every sequence of 3 events: " + WSD, None, T(40, 3000, 10, 7, flags=["-nospawn"]), replay="model")
+C["C09"]["harnesses"] += [WS2, WSL, WS3]
+C["C17"]["harnesses"] += [WS2]
+C["C09"]["assumptions"] = [a for a in C["C09"]["assumptions"] if "web-seed ranges are not exercised" not in a] + ["web-seed download goroutine not run: its results (piece finished / request failed) are events, produced exactly as urldownloader.Run's completePiece does", "web-seed range length cap (5% of the pieces in the picker) set to 1..3 on the 3-piece fixture so that multi-piece ranges occur"]
 
 SWE = H("ZZSectionWriteError", "internal/filesection", "a piece of 1..3 data sections (1..3 bytes each) written to in-memory files of which an arbitrary one rejects the write: Write reports an error (a piece is never reported written when a section is not on disk) and writes nothing after the failing section", T(40, 600), T(40, 600))
 C["C05"]["harnesses"] += [SWE]
